@@ -1213,3 +1213,44 @@ TWINS["C12"] = [
                            "        if self.table_index == new_table_index:\n            return self\n        new_data = self._data[array_index]\n        if isinstance(new_data, np.ndarray):\n            return self.__class__(")),
     TW("statetable-handler-order", (MTB, "        except (KeyError, IndexError, DomainError) as e:", "        except (DomainError, KeyError, IndexError) as e:")),
 ]
+
+# ----------------------------------------------------------------------------------- C20
+GWM = "msdm/domains/gridworld/mdp.py"
+WGW = "msdm/domains/gridmdp/windygridworld.py"
+TIG = "msdm/domains/tiger.py"
+HOH = "msdm/domains/heavenorhell.py"
+MUTANTS["C20"] = [
+    M("revert-F16-windy-none-default", ["IFC-6"],
+      (WGW, "        if feature_rewards is None:\n            feature_rewards = {}\n        self.feature_rewards = feature_rewards", "        self.feature_rewards = feature_rewards")),
+    M("gridworld-stay-guard-dropped", ["GW-1", "ALG-3"],
+      (GWM, "        elif ns == s:\n            bdist = DeterministicDistribution(s)\n", "")),
+    M("gridworld-wall-guard-dropped", ["GW-1"],
+      (GWM, "        elif ns in self.walls:\n            bdist = DeterministicDistribution(s)\n", "")),
+    M("gridworld-slip-unnormalised", ["ALG-3", "GW-2"],
+      (GWM, "                s: 1 - self.success_prob,\n                ns: self.success_prob", "                s: 1 - self.success_prob,\n                ns: 1")),
+    M("gridworld-absorbing-feature-not-first", ["GW-3"],
+      (GWM, "        if s in self.absorbing_states:\n            return TERMINALDIST\n        assert isinstance(s, frozendict)", "        assert isinstance(s, frozendict)")),
+    M("gridworld-reward-of-left-cell", ["GW-4"],
+      (GWM, "        f = self._locFeatures.get(ns, \"\")", "        f = self._locFeatures.get(s, \"\")")),
+    M("gridworld-terminal-reward", ["GW-4"],
+      (GWM, "        if self.is_absorbing(s) or self.is_absorbing(ns):\n            return 0.0", "        if self.is_absorbing(s):\n            return 0.0")),
+    M("gridworld-moved-cell-double-step", ["GW-2"],
+      (GWM, "        nx, ny = x + ax, y + ay", "        nx, ny = x + 2*ax, y + ay")),
+    M("tiger-observation-unnormalised", ["ALG-3"],
+      (TIG, "return DictDistribution(left=pleft, right=1-pleft)", "return DictDistribution(left=pleft, right=pleft)")),
+    M("windy-wind-weights", ["ALG-3"],
+      (WGW, "            (s, r) : 1 - self.wind_probability,\n            (ns, r): self.wind_probability,", "            (s, r) : 1 - self.wind_probability,\n            (ns, r): 1,")),
+    M("hoh-initial-same-key", ["ALG-3"],
+      (HOH, "            State(x=x, y=y, heaven='h', hell='g'): .5,", "            State(x=x, y=y, heaven='g', hell='h'): .5,")),
+    M("tiger-no-actions", ["ACT-1"],
+      (TIG, "        return ['left', 'right', 'listen']", "        return []")),
+    M("cliff-falls-off-no-dist", ["DIST-1"],
+      (C.replace("core/", "domains/") + "cliffwalking.py", "        return DictDistribution.deterministic(ns)", "        return None")),
+]
+TWINS["C20"] = [
+    TW("gridworld-guards-merged",
+       (GWM, "        if ns not in self._states:\n            bdist = DeterministicDistribution(s)\n        elif ns in self.walls:\n            bdist = DeterministicDistribution(s)\n        elif ns == s:",
+        "        if ns not in self._states or ns in self.walls:\n            bdist = DeterministicDistribution(s)\n        elif ns == s:")),
+    TW("gridworld-slip-order", (GWM, "                s: 1 - self.success_prob,\n                ns: self.success_prob", "                ns: self.success_prob,\n                s: 1 - self.success_prob")),
+    TW("windy-default-or-form", (WGW, "        if feature_rewards is None:\n            feature_rewards = {}\n        self.feature_rewards = feature_rewards", "        if feature_rewards is None:\n            feature_rewards = dict()\n        self.feature_rewards = feature_rewards")),
+]
